@@ -87,6 +87,9 @@ func vhDecodeTypeInfo(dec *cbor.StreamDecoder) (TypeInfo, error) {
 	if err != nil {
 		return nil, err
 	}
+	if v >= 1000 {
+		return vCompositeTypeInfo{id: v - 1000}, nil
+	}
 	return vTypeInfo{id: v}, nil
 }
 
